@@ -198,6 +198,9 @@ def tr_atoms(node, names, atoms):
     if isinstance(node, ast.BinOp) and type(node.op) in (ast.Add, ast.Sub, ast.Mult, ast.Div):
         op = {ast.Add: "+", ast.Sub: "-", ast.Mult: "*", ast.Div: "/"}[type(node.op)]
         return f"({tr_atoms(node.left, names, atoms)} {op} {tr_atoms(node.right, names, atoms)})"
+    if (isinstance(node, ast.Call) and not node.keywords and len(node.args) == 2 and isinstance(node.func, ast.Attribute)
+            and node.func.attr == "minimum" and isinstance(node.func.value, ast.Name) and node.func.value.id == "np"):
+        return f"(Qmin {tr_atoms(node.args[0], names, atoms)} {tr_atoms(node.args[1], names, atoms)})"
     raise Unsupported("opaque sub-expression not listed for this site: " + txt[:100])
 
 
@@ -217,6 +220,9 @@ def locate(fn, how):
                     hits.append(v)
         elif kind == "tuple_assign" and isinstance(n, ast.Assign) and isinstance(n.targets[0], ast.Tuple) and [ast.unparse(t) for t in n.targets[0].elts] == how[1]:
             hits.append(n.value.elts[how[2]])
+    hits.sort(key=lambda n: (getattr(n, "lineno", 0), getattr(n, "col_offset", 0)))
+    if kind == "assign" and len(how) > 2 and how[2] == "all":
+        return [h for h in hits if isinstance(h, ast.BinOp)]      # arithmetic assignments only (max(...) updates are the monotone pass)
     want = how[-1] if isinstance(how[-1], int) and kind not in ("tuple_assign",) else None
     if kind == "tuple_assign":
         want = None
@@ -251,6 +257,21 @@ FORMULAS = {
         ("sprt_A", "sprt", "sprt", ("tuple_assign", ["A", "B"], 0), {"alpha": "alpha", "beta": "beta"}, {}, "alpha beta", "wald_A alpha beta", "~ 1 - alpha == 0"),
         ("sprt_B", "sprt", "sprt", ("tuple_assign", ["A", "B"], 1), {"alpha": "alpha", "beta": "beta"}, {}, "alpha beta", "wald_B alpha beta", "~ alpha == 0"),
     ],
+    "C11": [
+        ("adjust_holm_base", "npc", "adjust_p", ("assign", "adj_pvalues", 0), {"pvalues": "x", "n": "n", "order": "rk"}, {"np.ones(n)": "1"}, "x n rk", "adj_holm x n rk", None),
+        ("adjust_bonferroni", "npc", "adjust_p", ("assign", "adj_pvalues", 1), {"pvalues": "x", "n": "n"}, {"np.ones(n)": "1"}, "x n", "adj_bonf x n", None),
+        ("adjust_bh_base", "npc", "adjust_p", ("assign", "adj_pvalues", 2), {"pvalues": "x", "n": "n", "order": "rk"}, {"np.ones(n)": "1"}, "x n rk", "adj_bh x n rk", None),
+    ],
+    "C10": [
+        ("wy_raw_p", "npc", "westfall_young", ("assign", "raw_p[c]", "all", 4), {"reps": "r"},
+         {"np.sum(np.array(tv[c]) >= ts[c])": "H", "np.sum(np.array(np.abs(tv[c])) >= np.abs(ts[c]))": "H"}, "H r", "mc_pvalue H 1 r", "~ r + 1 == 0"),
+        ("wy_perm_ps", "npc", "westfall_young", ("assign", "ps[c]", "all", 2), {"reps": "r"},
+         {"len(tv[c])": "L", "rankdata(tv[c], method='min')": "Rk", "np.array(tv[c]) <= ts[c]": "I",
+          "rankdata(np.abs(tv[c]), method='min')": "Rk", "np.abs(tv[c]) <= np.abs(ts[c])": "I"}, "L Rk I r", "wy_ps L Rk I r", "~ r + 1 == 0"),
+        ("wy_adj_p", "npc", "westfall_young", ("assign", "adj_p[c]", "all", 3), {"reps": "r"},
+         {"np.sum(np.array(ps[c]) <= raw_p[c])": "H", "np.sum(np.array(tv[c]) >= ts[c])": "H", "np.sum(np.array(tv[c]) >= np.abs(ts[c]))": "H"},
+         "H r", "mc_pvalue H 1 r", "~ r + 1 == 0"),
+    ],
     "C12": [("binom_ci_level_split", "utils", "binom_conf_interval", ("assign", "cl"), {"cl": "cl"}, {}, "cl", "split_level cl", None)],
     "C13": [("hypergeom_ci_level_split", "utils", "hypergeom_conf_interval", ("assign", "cl"), {"cl": "cl"}, {}, "cl", "split_level cl", None)],
 }
@@ -263,14 +284,19 @@ def generate_formulas(prop, repo=None):
     for (name, mod, fname, how, names, atoms, vars_, model, premise) in FORMULAS[prop]:
         src = open(os.path.join(repo, "permute", mod + ".py")).read()
         fn = find_function(ast.parse(src), fname)
-        expr = locate(fn, how)
-        body = tr_atoms(expr, names, atoms)
-        lines.append(f"Definition src_{name} ({vars_} : Q) : Q := {body}.")
-        prem = f"{premise} -> " if premise else ""
-        lines.append(f"Theorem G4_{name} : forall {vars_} : Q, {prem}src_{name} {vars_} == {model}.")
-        lines.append(f"Proof. unfold src_{name}. formula_tac. Qed.")
-        lines.append("")
-        detail.append({"site": f"{mod}.{fname}", "formula": ast.unparse(expr)})
+        exprs = locate(fn, how)
+        multi = isinstance(exprs, list)
+        if multi and len(exprs) != how[3]:
+            raise Unsupported(f"{fname}: {len(exprs)} assignments to {how[1]}, expected {how[3]}")
+        for k, expr in enumerate(exprs if multi else [exprs]):
+            nm = f"{name}_{k}" if multi else name
+            body = tr_atoms(expr, names, atoms)
+            lines.append(f"Definition src_{nm} ({vars_} : Q) : Q := {body}.")
+            prem = f"{premise} -> " if premise else ""
+            lines.append(f"Theorem G4_{nm} : forall {vars_} : Q, {prem}src_{nm} {vars_} == {model}.")
+            lines.append(f"Proof. unfold src_{nm}. formula_tac. Qed.")
+            lines.append("")
+            detail.append({"site": f"{mod}.{fname}", "formula": ast.unparse(expr)})
     return "\n".join(lines), detail
 
 
